@@ -12,57 +12,11 @@ From PushModel Require Import Base.Sx Base.Machine Base.F32 Base.F32Flocq Proofs
 Open Scope Z_scope.
 
 (* ---- the constants ---- *)
-Lemma Fin_of_parts c : (exists me, fl_parts c = Some me) -> Fin c.
-Proof.
-  unfold fl_parts, Fin. intros [me H]. destruct (of_bits c); try discriminate; reflexivity.
-Qed.
-
-Lemma RV_of_parts c m e : fl_parts c = Some (m, e) -> RV c = F2R (Float radix2 m e).
-Proof.
-  intros H. destruct (fl_parts_fin c) as (m' & e' & Hp & Hv & _ & _).
-  - apply Fin_of_parts. eauto.
-  - rewrite H in Hp. injection Hp as <- <-. exact Hv.
-Qed.
-
-Lemma const_zero : Fin f_zero /\ RV f_zero = 0%R.
-Proof.
-  split; [apply Fin_of_parts; eexists; reflexivity|].
-  rewrite (RV_of_parts f_zero 0 0 eq_refl). unfold F2R. cbn [Fnum]. lra.
-Qed.
-Lemma const_one : Fin f_one /\ RV f_one = 1%R.
-Proof.
-  split; [apply Fin_of_parts; eexists; reflexivity|].
-  rewrite (RV_of_parts f_one 8388608 (-23) eq_refl). unfold F2R. cbn. lra.
-Qed.
 Lemma const_100 : Fin f_100 /\ RV f_100 = 100%R.
 Proof.
   split; [apply Fin_of_parts; eexists; reflexivity|].
   rewrite (RV_of_parts f_100 13107200 (-17) eq_refl). unfold F2R. cbn. lra.
 Qed.
-
-Lemma Fin_not_nan z : Fin z -> fl_is_nan z = false.
-Proof. unfold Fin. rewrite fl_is_nan_spec. apply fin_not_nan. Qed.
-
-(* a non-NaN strictly between the infinities is finite *)
-Lemma XR_fin z : fl_is_nan z = false -> (- bpow radix2 128 < XR z < bpow radix2 128)%R -> Fin z /\ XR z = RV z.
-Proof.
-  unfold XR, RV, Fin. rewrite fl_is_nan_spec. intros N H.
-  destruct (of_bits z) as [s|s|s pl e|s m e e0]; try discriminate; try (split; reflexivity).
-  exfalso. cbn [xr] in H. destruct s; lra.
-Qed.
-
-Lemma one_lt_max : (1 < bpow radix2 128)%R.
-Proof. change 1%R with (bpow radix2 0). apply bpow_lt. lia. Qed.
-
-Lemma fmt_0 : fmt32 0.
-Proof. apply generic_format_0. Qed.
-Lemma fmt_half : fmt32 (/ 2).
-Proof. change (/ 2)%R with (bpow radix2 (-1)). apply fmt_pow2. lia. Qed.
-Lemma fmt_pow2Z e : 0 <= e -> fmt32 (IZR (2 ^ e)).
-Proof. intros H. rewrite <- (bpow2_nonneg e H). apply fmt_pow2. lia. Qed.
-
-Lemma abs_le_of_between x (b : Z) : (0 <= x <= IZR b)%R -> (Rabs x <= IZR b)%R.
-Proof. intros [H0 H1]. rewrite Rabs_pos_eq; assumption. Qed.
 
 (* ---- step 1: the sparsity is a finite number in [0, 1] ---- *)
 Lemma sp_range sp : fl_is_nan sp = false ->
